@@ -42,6 +42,11 @@ Definition mir_a succs goals start orders hs tbs :=      (* finite heuristic: th
 Definition mir_ai succs goals start orders hs tbs :=     (* heuristic with +inf entries (None) *)
   let G := graph_of succs goals in (consistentb G (h_of hs), astar G start (ord_of orders) (h_of hs) tbs).
 Definition mir_b succs goals start orders := bfs (graph_of succs goals) start (ord_of orders).
+Local Open Scope Z_scope.
+Definition pchk_a succs goals start phi pa :=
+  let G := graph_of succs goals in (wf_graphb G, pot_clauses G start (hz_of phi) pa).
+Definition pchk_b succs goals start phi pb :=
+  let G := graph_of succs goals in (wf_graphb G, bfs_pot_clauses G start (hz_of phi) pb).
 Definition reads := (from_mdp_read (DDet 1), from_mdp_read (DDict 1), from_mdp_read (DUnif 1)).
 """
 
@@ -57,17 +62,72 @@ BIG = 10 ** 13          # heuristic cost of states that cannot reach a goal (abo
 # generator
 # ---------------------------------------------------------------------------
 def exact_dist(case, unit=False):
-    """least cost (or number of steps) from every state to the goal set; None = unreachable"""
+    """least cost (or number of steps) from every state to the goal set; None = unreachable
+    (Dijkstra on the reversed graph: independent of the Coq reference, fast on graphs with thousands of states)"""
+    import heapq
     n = case["n"]
-    d = [0 if case["goal"][s] else None for s in range(n)]
-    for _ in range(n + 1):
-        for s in range(n):
-            for a, t, c in case["succ"][s]:
-                if d[t] is not None:
-                    v = d[t] + (1 if unit else c)
-                    if d[s] is None or v < d[s]:
-                        d[s] = v
+    rev = [[] for _ in range(n)]
+    for s in range(n):
+        for a, t, c in case["succ"][s]:
+            rev[t].append((s, 1 if unit else c))
+    d = [None] * n
+    heap = [(0, s) for s in range(n) if case["goal"][s]]
+    heapq.heapify(heap)
+    while heap:
+        ds, s = heapq.heappop(heap)
+        if d[s] is not None:
+            continue
+        d[s] = ds
+        for u, c in rev[s]:
+            if d[u] is None:
+                heapq.heappush(heap, (ds + c, u))
     return d
+
+
+def gen_long_case(rng):
+    """long corridor / comb: the only plans have 1200..2000 steps (no forward shortcuts), with dead-end or returning
+    teeth, back edges, self-loops, varying costs.  Judged by the potential certificate (pot_clauses)."""
+    L = rng.randint(1200, 2000)
+    comb = rng.random() < .6
+    unit = rng.random() < .3
+    succ = [[] for _ in range(L + 1)]
+    for i in range(L):
+        labels = rng.sample(range(4), 4)
+        row = [[labels[0], i + 1, 1 if unit else rng.choice([0, 1, 1, 2, 3])]]
+        if rng.random() < .1:
+            row.append([labels[1], max(0, i - rng.randint(1, 30)), rng.choice([0, 1, 2])])
+        if rng.random() < .05:
+            row.append([labels[2], i, rng.choice([0, 1])])
+        if comb and rng.random() < .3:
+            t = len(succ)
+            succ.append([[0, i, 1]] if rng.random() < .5 else [])          # tooth: returns to the spine, or dead end
+            row.append([labels[3], t, rng.choice([0, 1, 2])])
+        rng.shuffle(row)
+        succ[i] = row
+    n = len(succ)
+    goal = [s == L for s in range(n)]
+    case = {"n": n, "succ": succ, "goal": goal, "start": 0, "family": "long", "long": True, "plan_steps": L}
+    kinds = ["det", "det", "uniform", "uniform", "dict"]
+    case["repr"] = rng.choice(["next_state", "dspdist", rng.choice(kinds) + "/" + rng.choice(kinds), rng.choice(kinds) + "/" + rng.choice(kinds)])
+    d = exact_dist(case)
+    hk = rng.choice(["zero", "exact", "half", "exact_inf"])
+    case["heuristic"] = hk
+    case["h"] = ([0] * n if hk == "zero" else [BIG if x is None else x for x in d] if hk == "exact" else
+                 [BIG if x is None else x // 2 for x in d] if hk == "half" else ["inf" if x is None else x for x in d])
+    case["scenario"] = "plain"
+    case["tie"] = rng.choice(["lifo", "fifo", "random"])
+    case["shuffle"] = rng.random() < .5
+    case["seed"] = rng.randrange(10 ** 6) if (case["tie"] == "random" or case["shuffle"]) else None
+    case["bfs_seed"] = rng.randrange(10 ** 6) if case["shuffle"] else None
+    case["labels"] = rng.choice(["int", "perm", "str", "tuple"])
+    if case["labels"] == "perm":
+        case["perm"] = [3 * x - 4 for x in rng.sample(range(n), n)]
+    case["alabels"] = rng.choice(["int", "str"])
+    case["num_type"] = rng.choice(["float", "int"])
+    case["actions_container"] = rng.choice(["tuple", "list"])
+    case["shared_dists"], case["tabular"], case["replan"], case["assert_monotone"] = False, False, rng.random() < .3, True
+    assert consistent(case)
+    return case
 
 
 def gen_big_graph(rng):
@@ -259,17 +319,33 @@ def features(case):
 # Gallina literals
 # ---------------------------------------------------------------------------
 def graph_term(case):
+    if case.get("long"):        # numbers in binary (a unary nat literal per state would be huge)
+        succs = coqlist(coqlist("mkEz %d %d %d" % (a, t, c) for a, t, c in row) for row in case["succ"])
+        return "%s %s (Z.to_nat %d)" % (succs, blist(case["goal"]), case["start"])
     succs = coqlist(coqlist("mkE %d %d %s" % (a, t, zlit(c)) for a, t, c in row) for row in case["succ"])
     return "%s %s %s" % (succs, blist(case["goal"]), nat(case["start"]))
 
 
-def plan_term(out, with_value):
+def zl(xs):
+    return "[" + "; ".join("%d" % x for x in xs) + "]"
+
+
+def plan_term(out, with_value, long=False):
     p = out["plan"]
     if p is None:
         return "None"
+    if long:
+        if with_value:
+            return "(zplan (Some (%s, %s, %d)))" % (zl(p["path"]), zl(p["acts"]), p["value_int"])
+        return "(zbfs_plan (Some (%s, %s)))" % (zl(p["path"]), zl(p["acts"]))
     if with_value:
         return "(Some (%s, %s, %s))" % (natlist(p["path"]), natlist(p["acts"]), zlit(p["value_int"]))
     return "(Some (%s, %s))" % (natlist(p["path"]), natlist(p["acts"]))
+
+
+def potential(case, unit):
+    """exact cost-to-go (steps-to-go) as a potential; states that cannot reach a goal get BIG (still consistent)"""
+    return [BIG if x is None else x for x in exact_dist(case, unit=unit)]
 
 
 # ---------------------------------------------------------------------------
@@ -337,7 +413,8 @@ def run(ctx):
     if ctx.replay_case:
         cases = [ctx.replay_case["detail"]["case"]]
     else:
-        cases = [gen_case(ctx.rng) for _ in range(ncases)] + [INF_PROBE]
+        nlong = 4 if tier == "quick" else 24
+        cases = [gen_case(ctx.rng) for _ in range(ncases)] + [INF_PROBE] + [gen_long_case(ctx.rng) for _ in range(nlong)]
     impl = ctx.impl("c05_impl.py", {"cases": cases}, shards=8 if tier == "quick" else 16)["results"]
 
     # model of from_mdp: which representations of a single outcome can be read (theorems from_mdp_repr_*)
@@ -362,7 +439,7 @@ def run(ctx):
         units.append((parent, parent, res))
         if parent.get("scenario") == "two_wrappers":
             units.append((parent, parent["other"], res["other"]))
-    n_nested_h = 0
+    n_nested_h = n_long_checks = 0
     branch = {"astar_runs_with_10plus_repushes": 0, "astar_max_repushes_in_a_run": 0, "astar_runs_with_repush": 0, "astar_runs_with_stale_pop": 0, "astar_goal_popped": 0, "astar_fell_through": 0,
               "bfs_goal_popped": 0, "bfs_fell_through": 0}
     for i, (parent, case, res) in enumerate(units):
@@ -432,8 +509,17 @@ def run(ctx):
                     ctx.violation(sig_of(alg, CLAUSES[3]), {"case": parent, "judged_problem": "second wrapper" if case is not parent else "main", "algorithm": alg, "impl": out,
                                                             "failing_clause": {"clause": CLAUSES[3], "reported": out["plan"]["value"]}}, found=True)
                     continue
-            terms.append("%s %s %s" % ("chk_a" if alg == "astar" else "chk_b", gt, plan_term(out, alg == "astar")))
+            if case.get("long"):
+                # thousands of states: bf_dist is too slow; minimality is witnessed by the exact cost-to-go as a potential
+                # (theorems pot_cert_sound / bfs_pot_cert_sound); a missing plan fails the last clause and is named by the oracle
+                terms.append("%s %s %s %s" % ("pchk_a" if alg == "astar" else "pchk_b", gt, zl(potential(case, alg == "bfs")),
+                                              plan_term(out, alg == "astar", long=True)))
+            else:
+                terms.append("%s %s %s" % ("chk_a" if alg == "astar" else "chk_b", gt, plan_term(out, alg == "astar")))
             meta.append(("chk", i, alg))
+            if case.get("long"):
+                n_long_checks += 1
+                continue            # the list-based mirror is quadratic (minutes at this size): certificate only
             if not case["goal"][case["start"]] and case["succ"][case["start"]]:
                 distinct.add(vlib.structural_hash([case["succ"], case["goal"], case["start"]]))
             # mirror
@@ -449,7 +535,13 @@ def run(ctx):
                     terms.append("mir_a %s %s %s %s" % (gt, coqlist(natlist(o) for o in out["shuffles"]), zlist(case["h"]), tb))
                 meta.append(("mir", i, alg))
 
-    vals = ctx.coq(PRE, terms, shard=40 if tier == "quick" else 150, tag="cases_p%d" % os.getpid())
+    # the few big terms (seconds each) get a file of their own so that they run in parallel
+    big = [k for k, (_, i, _) in enumerate(meta) if units[i][1].get("long")]
+    small = [k for k in range(len(terms)) if units[meta[k][1]][1].get("long") is not True]
+    vals = [None] * len(terms)
+    for ks, sh, tg in ((small, 40 if tier == "quick" else 150, "cases"), (big, 1, "long")):
+        for k, v in zip(ks, ctx.coq(PRE, [terms[k] for k in ks], shard=sh, tag="%s_p%d" % (tg, os.getpid()))):
+            vals[k] = v
     nchk = nmir = drift = accepted = 0
     drift_samples = []
     for (kind, i, alg), v in zip(meta, vals):
@@ -503,7 +595,9 @@ def run(ctx):
         "rule": "80%% small graphs: 1..9 states, out-degree 0..3 with distinct action labels from 0..3 in random order, successors random / mostly-forward / ring "
                 "(self-loops, back edges, cycles), integer costs 0..4 (modes mixed / unit / all-zero / zero-heavy), 0..3 goals (possibly with outgoing actions, "
                 "possibly unreachable, possibly the start); 20%% big graphs (gen_big_graph): `repush` 10..22 states, out-degree up to n-1, cost ~ |j-i|^p + noise so that "
-                "most queued states are re-reached more cheaply at every expansion (superseded nodes outnumber live ones), or `dense` 7..16 states, out-degree 2..8, costs 0..100; heuristic in {zero, exact, floor(exact/2), exact with +inf on dead states} (dead states otherwise %d), "
+                "most queued states are re-reached more cheaply at every expansion (superseded nodes outnumber live ones), or `dense` 7..16 states, out-degree 2..8, costs 0..100; plus a fixed number of `long` corridor / comb problems "
+                "(gen_long_case: the only plans have 1200..2000 steps; dead-end and returning teeth, back edges, self-loops; judged by the potential certificate pot_clauses with the "
+                "exact cost-to-go as potential, no mirror run); heuristic in {zero, exact, floor(exact/2), exact with +inf on dead states} (dead states otherwise %d), "
                 "tie_breaking in {lifo,fifo,random}, seeds, randomize_action_order, MDP given as a DeterministicShortestPathProblem subclass (next_state) or a QuickMDP whose "
                 "initial/next-state distributions are DeterministicDistribution / single-entry DictDistribution / single-element UniformDistribution; every case is run "
                 "through AStarSearch and BreadthFirstSearch; scenarios: plain / two_wrappers (from_mdp wrappers of two different generated problems built first, then the older "
@@ -511,7 +605,7 @@ def run(ctx):
         "samples": [{"case": cases[0], "impl": impl[0]}] if cases else [],
         "certificate_checks": nchk, "certificate_accepts": accepted, "mirror_runs": nmir, "mirror_drift": drift,
         "mirror_drift_samples": drift_samples,
-        "nested_heuristic_values_checked": n_nested_h, "branch_counts": branch,
+        "nested_heuristic_values_checked": n_nested_h, "long_plan_certificate_checks": n_long_checks, "branch_counts": branch,
         "dict_distribution_runs_raising_TypeError": n_dict_err,
         "infinite_heuristic_runs_raising_AssertionError": n_inf_assert,
         "from_mdp_model": model_reads, "from_mdp_model_behind_code_runs": stale_from_mdp_model,
